@@ -104,8 +104,17 @@ Step1 ==
               ELSE Step(own, dying, foreign, dups \cup {e.fd}, viols)
          [] e.ev = "UserDupClose" -> Step(own, dying, foreign, dups \ {e.fd}, Check(e.ok, "DupNeverClosed", e.fd, viols))
          \* ---- after Run returned and the grace period: nothing is owned any more, and /proc agrees
-         [] e.ev = "Grace" -> Same(Check(DOMAIN own = {} /\ DOMAIN dying = {}, "NoLeakAtStop", <<DOMAIN own, DOMAIN dying>>, viols))
-         [] e.ev = "ProcFd" -> Same(Check(e.leaked = 0 /\ e.sockfiles = 0, "NoLeakAtStop", <<"/proc/self/fd", e.leaked, e.what, e.sockfiles>>, viols))
+         \* sockets that were accepted but whose registration task was still queued when the loops exited are a
+         \* separate (known) way to leak: they are reported under their own name
+         [] e.ev = "Grace" ->
+              LET pendingReg == {fd \in DOMAIN own : own[fd][1] = "accepted"}
+                  v1 == Check(DOMAIN own \ pendingReg = {} /\ DOMAIN dying = {}, "NoLeakAtStop", <<DOMAIN own \ pendingReg, DOMAIN dying>>, viols)
+                  v2 == Check(pendingReg = {}, "NoLeakAtStop_PendingRegister", pendingReg, v1)
+              IN Same(v2)
+         [] e.ev = "ProcFd" ->
+              LET pendingReg == {fd \in DOMAIN own : own[fd][1] = "accepted"} IN
+              Same(Check(e.leaked <= Cardinality(pendingReg) /\ e.sockfiles = 0, "NoLeakAtStop",
+                         <<"/proc/self/fd", e.leaked, e.what, e.sockfiles, pendingReg>>, viols))
          [] OTHER -> Same(viols)
 
 Next == Step1 \/ FinishWith(<<own, dying, foreign, dups>>)
